@@ -106,6 +106,46 @@ class TextShape(S.Shape):
     def __repr__(self):
         return f"Text({self.kind})"
 
+    def seq_getter(self, st, base, path, nidx):
+        """Hook of seqs.fresh_seq: texts as ELEMENTS of a fresh sequence (`ListOf(Tup(.., Text("bytes")))`, e.g. the
+        (attr, cs, text) runs of a canvas row).  Element (i...) is the text whose length, elements and width prefix
+        sums are the leaf functions `len(i...)`, `elt(i..., k)`, `wsum(i..., k)` -- one more index per nesting level,
+        exactly as for the int / opaque leaves of fresh_seq.  Such a text has no name of its own (see SElemText)."""
+        dom = [z3.IntSort()] * nidx
+        rng = CHAR if self.kind == "str" else z3.IntSort()
+        F = z3.Function(f"{base}{path}${'chars' if self.kind == 'str' else 'bytes'}", *dom, z3.IntSort(), rng)
+        WS = z3.Function(f"{base}{path}$wsum", *dom, z3.IntSort(), z3.IntSort())
+        LN = z3.Function(f"{base}{path}$len", *dom, z3.IntSort())
+
+        def g(*idx, kind=self.kind):
+            zi = [Q.zint(i) for i in idx]
+            ln = LN(*zi)
+            cur().assume(ln >= 0)
+            return SElemText(kind, mk_int(ln), lambda z, zi=zi: F(*zi, z), lambda z, zi=zi: WS(*zi, z))
+
+        return g
+
+
+class SElemText(SText):
+    """A text that is an element of a fresh sequence (TextShape.seq_getter): `f` / `wsum` are the sequence's leaf
+    functions applied to the element's index terms.  Length, elements, width prefix sums, slices and equality work as
+    for any base text; it has NO `name` (the per-text functions that contracts key by name -- column functions, the
+    identity used for deterministic callees -- would be shared by all elements of the sequence): asking for it is
+    Unsupported."""
+
+    def __init__(self, kind, length, f, wsum, offset=0):
+        self.kind, self.length, self.f, self.wsum, self.offset = kind, length, f, wsum, offset
+
+    @property
+    def name(self):
+        raise Unsupported("the name of a text that is an element of a symbolic sequence (it has none: per-text functions keyed by name are not available for it)")
+
+    def slice(self, lo, hi):
+        return SElemText(self.kind, V.imax(hi - lo, 0), self.f, self.wsum, self.offset + lo)
+
+    def __repr__(self):
+        return f"SElemText<{self.kind}>(len={self.length!r})"
+
 
 def concretize_text(model, t, max_len=16):
     n = model.eval(V._z(t.length), model_completion=True).as_long()
@@ -240,20 +280,60 @@ class SConst(_Derived):
 
 
 class SRepeat(_Derived):
+    """unit * n (CPython: n copies of unit, the empty text for n <= 0).  A unit of one element (the common case, `" " * n`)
+    needs no arithmetic; a unit of any other length L -- constant or symbolic, e.g. the encoded fill character of a
+    SolidCanvas -- has element k = unit[k mod L] and length L * max(n, 0) (k mod L is never evaluated for L = 0: the
+    result is empty then).  Cross-check against CPython: xcheck_derived_texts()."""
+
     def __init__(self, unit, n):
-        if not (isinstance(unit.length, int) and unit.length == 1):
-            raise Unsupported("repetition of a text that is not a single element")
-        super().__init__(unit.kind, V.imax(n, 0))
-        self.unit = unit
+        self.one = isinstance(unit.length, int) and unit.length == 1
+        super().__init__(unit.kind, V.imax(n, 0) if self.one else unit.length * V.imax(n, 0))
+        self.unit, self.n = unit, n
+
+    def _pos(self, i):
+        ln = self.unit.length
+        if isinstance(ln, int):
+            return i % ln if ln > 0 else 0
+        return i % V.ite(V._cmp(">", ln, 0), ln, 1)
 
     def get(self, i):
-        return self.unit.get(0)
+        return self.unit.get(0 if self.one else self._pos(i))
 
     def W(self, k):
-        return k * char_width(self.unit.get(0))
+        if self.one:
+            return k * char_width(self.unit.get(0))
+        ln = self.unit.length
+        whole = self.unit.W(ln) - self.unit.W(0)
+        d = ln if isinstance(ln, int) and ln > 0 else (1 if isinstance(ln, int) else V.ite(V._cmp(">", ln, 0), ln, 1))
+        return (k // d) * whole + self.unit.W(self._pos(k)) - self.unit.W(0)
 
     def raw(self, zi):
-        return self.unit.raw(z3.IntVal(0))
+        if self.one:
+            return self.unit.raw(z3.IntVal(0))
+        ln = self.unit.length
+        if isinstance(ln, int):
+            return self.unit.raw(zi % ln if ln > 0 else z3.IntVal(0))
+        zl = V._z(ln)
+        return self.unit.raw(zi % z3.If(zl > 0, zl, z3.IntVal(1)))
+
+
+class STextIte(_Derived):
+    """`a if c else b` for two texts of one kind as a VALUE (no path fork): length, elements and width prefix sums are
+    the conditionals of the two.  (CPython: the conditional expression yields one of the two objects; every observer
+    modelled here -- len, indexing, slicing, widths, equality -- then reads that object.)"""
+
+    def __init__(self, c, a, b):
+        super().__init__(a.kind, V.ite(c, a.length, b.length))
+        self.c, self.a, self.b = c, a, b
+
+    def get(self, i):
+        return V.ite(self.c, self.a.get(i), self.b.get(i))
+
+    def W(self, k):
+        return V.ite(self.c, self.a.W(k), self.b.W(k))
+
+    def raw(self, zi):
+        return z3.If(V._zb(self.c), self.a.raw(zi), self.b.raw(zi))
 
 
 def el0(kind):
@@ -341,6 +421,93 @@ def utf8_encoded(st, t):
 
 CHAR_UPPER = z3.Function("Char.upper_id", CHAR, z3.IntSort())
 CHAR_ISASCII = z3.Function("Char.isascii", CHAR, z3.BoolSort())
+
+
+# ---------------------------------------------------------------------------------------- str predicates of one char
+#
+# `c.isdigit()`, `c.isdecimal()`, `c.isnumeric()`, `c.isalpha()`, ... of a single abstract character c (e.g. chr(k) for
+# a symbolic byte k).  For code points 0..255 the answer is EXACTLY CPython's: a table taken from the running
+# interpreter at import time (`CHAR_PRED_ORDS[name]` = the code points < 256 for which `chr(o).<name>()` is true — note
+# that these are NOT the ASCII classes: '²' '³' '¹' are digits, '¼' '½' '¾' numeric, 'ª' 'º' 'µ' letters), written as a
+# disjunction of ranges over `ord(c)`.  Above 255 the answer is an uninterpreted predicate of the character (nothing
+# is claimed).  Cross-checked by `xcheck_char_predicates()`: the range formula evaluated by z3 at every code point
+# 0..255 against CPython, and the table against the independent `unicodedata` definitions of the predicates.
+CHAR_PREDICATES = ("isdigit", "isdecimal", "isnumeric", "isalpha", "isalnum", "isspace", "isupper", "islower", "isprintable")
+CHAR_PRED_ORDS = {name: tuple(o for o in range(256) if getattr(chr(o), name)()) for name in CHAR_PREDICATES}
+_CHAR_PRED_UF = {name: z3.Function(f"Char.{name}", CHAR, z3.BoolSort()) for name in CHAR_PREDICATES}
+
+
+def _ranges(ords):
+    out = []
+    for o in ords:
+        if out and out[-1][1] == o - 1:
+            out[-1][1] = o
+        else:
+            out.append([o, o])
+    return [(a, b) for a, b in out]
+
+
+def char_pred_formula(name, o, above):
+    """z3 Bool: `chr(o).<name>()` for the Int term o (a code point); `above` = the term used for o >= 256."""
+    rs = [(o == a) if a == b else z3.And(o >= a, o <= b) for a, b in _ranges(CHAR_PRED_ORDS[name])]
+    low = z3.Or(*rs) if rs else z3.BoolVal(False)
+    return z3.If(o < 256, low, above)
+
+
+def char_predicate(c, name):
+    """`c.<name>()` for an opaque Char c (see above)."""
+    o = V._z(char_ord(c))
+    return mk_bool(char_pred_formula(name, o, _CHAR_PRED_UF[name](c.e)))
+
+
+class CharProtocol:
+    """Attribute protocol of the opaque kind 'Char' (a one-character str): the argument-less predicates of
+    `CHAR_PREDICATES`; every other attribute stays Unsupported."""
+
+    kind = "Char"
+
+    def getattr(self, ip, st, obj, name):
+        if name in CHAR_PREDICATES:
+            from .protocol import OpaqueCall
+
+            return OpaqueCall(obj, name, self)
+        raise Unsupported(f"attribute {name} of opaque {self.kind}")
+
+    def call(self, ip, st, recv, name, args, kwargs):
+        if args or kwargs:
+            from .engine import PyRaise, SExc
+
+            raise PyRaise(SExc(TypeError, (f"str.{name}() takes no arguments",)))
+        return char_predicate(recv, name)
+
+
+def xcheck_char_predicates():
+    """(ok, detail): the single-character predicate model agrees with CPython on every code point 0..255 (formula
+    evaluated by z3 at the concrete code point), and the table agrees with the `unicodedata` definitions."""
+    import unicodedata as U
+
+    bad = []
+    o = z3.Int("o")
+    for name in CHAR_PREDICATES:
+        f = char_pred_formula(name, o, z3.BoolVal(False))
+        for k in range(256):
+            got = z3.is_true(z3.simplify(z3.substitute(f, (o, z3.IntVal(k)))))
+            if got != getattr(chr(k), name)():
+                bad.append((name, k))
+    indep = {
+        "isdecimal": lambda ch: U.category(ch) == "Nd",
+        "isdigit": lambda ch: U.digit(ch, None) is not None,
+        "isnumeric": lambda ch: U.numeric(ch, None) is not None,
+        "isalpha": lambda ch: U.category(ch) in ("Lu", "Ll", "Lt", "Lm", "Lo"),
+    }
+    for name, ref in indep.items():
+        for k in range(256):
+            if ref(chr(k)) != (k in CHAR_PRED_ORDS[name]):
+                bad.append((name + "/unicodedata", k))
+    ascii_digits = tuple(range(48, 58))
+    if not (set(ascii_digits) < set(CHAR_PRED_ORDS["isdigit"]) and CHAR_PRED_ORDS["isdecimal"] == ascii_digits):
+        bad.append(("ascii-digits", None))
+    return (not bad, f"{len(CHAR_PREDICATES)} predicates x 256 code points; isdigit also true at {[k for k in CHAR_PRED_ORDS['isdigit'] if k > 57]}; mismatches: {bad[:4]}")
 
 
 def isascii_of_text(st, t):
@@ -441,11 +608,24 @@ def xcheck_derived_texts():
                     st2.solver.pop()
                     if n != len(py) or got != want(py):
                         bad.append((a, b, c, lo, hi, got, want(py)))
-        for c1, n in ((" ", 3), (" ", 0), (" ", -2), (b"0", 2)):
-            t = SRepeat(SConst(c1), n)
-            ln = t.length if isinstance(t.length, int) else z3.simplify(V._z(t.length)).as_long()
-            if ln != len(c1 * n):
-                bad.append(("repeat", c1, n, ln))
+        for c1, n in ((" ", 3), (" ", 0), (" ", -2), (b"0", 2), (b"\xe2\x94\x80", 3), (b"ab", 0), (b"ab", -1), (b"", 4), (b"abc", 1)):
+            # (constant count and a symbolic count equated to it; multi-element units read back element by element)
+            for sym in (False, True):
+                st.solver.push()
+                cnt = n
+                if sym:
+                    cnt = st.fresh_int("cnt")
+                    st.solver.add(cnt.e == n)
+                t = SRepeat(SConst(c1), cnt)
+                zl = z3.simplify(V._z(t.length)) if not isinstance(t.length, int) else z3.IntVal(t.length)
+                s2 = z3.Solver()
+                s2.add(*st.solver.assertions())
+                want_v = want(c1 * n)
+                diffs = [V._z(t.get(z3_int(i))) != want_v[i] for i in range(len(want_v))] if t.kind == "bytes" else []
+                s2.add(z3.Or(zl != len(want_v), *diffs))
+                if s2.check() != z3.unsat:
+                    bad.append(("repeat", c1, n, sym))
+                st.solver.pop()
     finally:
         if isinstance(getattr(V, "_current", None), list) and V._current and V._current[-1] is st:
             V._current.pop()
